@@ -1,2 +1,115 @@
-(* C09 — every written file is well-formed for an independent decoder.  Statements only. *)
-From BT Require Import Base.Util Spec.FormatDecode.
+(* C09 — every written file is well-formed for an independent decoder.
+   Statements only, each closed by [exact], with Print Assumptions beneath.
+
+   The decoder is Spec/FormatDecode.v: written from the published format, it shares no definition
+   with the reader model or the writer models.  The encoders are the WRITER MODEL's
+   (Model/BBIFile.v, Model/BigWigWrite.v, Model/RTree.v).  Part 1: component codecs
+   decode_x (encode_x v) = Some v, for every value that fits the fields. *)
+From BT Require Import Base.Util Base.LE Base.Float Generated.Consts Model.RTree Model.BBIFile Model.BigWigWrite
+  Proofs.RTreeCodec Proofs.RTreeBuild Proofs.FileRegions Spec.FormatDecode Proofs.C09Base Proofs.C09Codec Proofs.C09Chrom Proofs.C09RTree.
+Local Open Scope N_scope.
+
+(* common header: the 64 bytes write_info emits, wherever the image holds them at offset 0 *)
+Theorem C09_header_codec : forall img n magic nz ct dof ix fc dfc asql so ubuf,
+  has_at img 0 (header_bytes magic nz ct dof ix fc dfc asql so ubuf) -> n = Nlen img ->
+  nz < W16 -> ct < W64 -> dof < W64 -> ix < W64 -> fc < W16 -> dfc < W16 -> asql < W64 -> so < W64 -> ubuf < W32 ->
+  parse_header img n false =
+    Some {| fh_version := 4; fh_nzoom := nz; fh_ctoff := ct; fh_dataoff := dof; fh_ixoff := ix; fh_fc := fc;
+            fh_dfc := dfc; fh_asql := asql; fh_sumoff := so; fh_ubuf := ubuf; fh_ext := 0 |}.
+Proof. exact parse_header_ok. Qed.
+Print Assumptions C09_header_codec.
+
+(* zoom directory *)
+Theorem C09_zoom_directory_codec : forall img n zs, has_at img 64 (flat_map zoom_header_bytes zs) -> n = Nlen img ->
+  Forall zh_ok zs -> parse_zoomhdrs img n false (Nlen zs) = Some (map zh_view zs).
+Proof. exact parse_zoomhdrs_ok. Qed.
+Print Assumptions C09_zoom_directory_codec.
+
+(* total summary: bases covered, and the four f64 fields as the bit patterns that were written *)
+Theorem C09_summary_codec : forall img n off s, has_at img off (summary_bytes s) -> n = Nlen img -> su_bases s < W64 ->
+  parse_summary img n false off = Some (sum_view s).
+Proof. exact parse_summary_ok. Qed.
+Print Assumptions C09_summary_codec.
+
+(* bigWig data section (type 1, bedGraph): header fields and every (start, end, value pattern) *)
+Theorem C09_section_codec : forall chrom items sd, encode_section chrom items = Ok sd ->
+  chrom < W32 -> Forall val_ok items -> Nlen items < W16 ->
+  parse_wig_section false (sd_bytes sd) = Some (sd_chrom sd, sd_start sd, sd_end sd, map (rec_of chrom) items)
+  /\ sd_chrom sd = chrom /\ Nlen (sd_bytes sd) = 24 + 12 * Nlen items
+  /\ exists f, hd_error items = Some f /\ sd_start sd = v_start f /\ sd_end sd = v_end (last items f).
+Proof. exact parse_wig_section_ok. Qed.
+Print Assumptions C09_section_codec.
+
+(* zoom record and zoom section *)
+Theorem C09_zoom_record_codec : forall fp recs, Forall zrec_ok recs ->
+  parse_zoom_items false (length recs) (flat_map (zrec_bytes fp) recs) = map (zr_view fp) recs.
+Proof. exact parse_zoom_items_ok. Qed.
+Print Assumptions C09_zoom_record_codec.
+
+Theorem C09_zoom_section_codec : forall fp recs sd, encode_zoom_section fp recs = Ok sd -> Forall zrec_ok recs ->
+  Nlen (sd_bytes sd) = 32 * Nlen recs
+  /\ parse_zoom_items false (N.to_nat (Nlen (sd_bytes sd) / 32)) (sd_bytes sd) = map (zr_view fp) recs
+  /\ exists f, hd_error recs = Some f /\ sd_chrom sd = z_chrom f /\ sd_start sd = z_start f /\ sd_end sd = z_end (last recs f).
+Proof. exact encode_zoom_section_ok. Qed.
+Print Assumptions C09_zoom_section_codec.
+
+(* chromosome B+ tree: names non-empty without NUL, ids 0..n-1 in order, fields in range; the strict
+   decoder additionally needs the names in increasing byte order (what it checks and what
+   write_chrom_tree does not establish by itself: see C09_chrom_keys_refuted) *)
+Theorem C09_chrom_tree_codec : forall img n off sizes (chroms : idmap) ct (strict : bool),
+  chrom_tree_bytes sizes chroms = Ok ct -> has_at img off ct -> n = Nlen img ->
+  chroms <> [] -> Nlen chroms < W16 ->
+  Forall (fun c => name_ok (fst c) /\ Nlen (fst c) < W32 /\ size_of sizes c < W32) chroms ->
+  map snd chroms = seqN 0 (length chroms) ->
+  (strict = true -> names_increasing (map fst chroms)) ->
+  parse_chrom_tree img n false strict off = Some (map (chrom_view sizes) chroms, off + Nlen ct)
+  /\ Nlen ct = 36 + Nlen chroms * (N.of_nat (fold_left (fun a c => Nat.max a (length (fst c))) chroms 0%nat) + 8).
+Proof. exact parse_chrom_tree_ok. Qed.
+Print Assumptions C09_chrom_tree_codec.
+
+(* R-tree: for every fan-out 2..65535 and every non-empty (chrom,start)-sorted section list whose
+   byte ranges are increasing and inside [lo,hi), the index write_rtreeindex lays out at any
+   position is accepted by the independent decoder (magic, counts within the block size, every
+   item inside the span its parent records, leaves in order and inside the data region, item
+   count) and yields exactly the sections, in order; its nodes end inside the index bytes. *)
+Theorem C09_rtree_codec : forall img n off lo hi b ips secs bs lv,
+  write_index b ips off secs = Ok (bs, lv) -> has_at img off bs -> n = Nlen img -> n < W64 ->
+  2 <= b <= 65535 -> 1 <= ips < W32 -> secs <> [] -> sorted_starts (map sect_span secs) -> Forall sect_ok secs ->
+  Nlen secs <= n ->
+  Forall (fun s => lo <= s_off s /\ s_off s + s_size s <= hi /\ 1 <= s_size s /\ s_start s <= s_end s) secs ->
+  offs_chain secs ->
+  exists h e, parse_index img n false off lo hi = Some (h, map lf_of secs, e)
+    /\ ih_block h = b /\ ih_ips h = ips /\ ih_count h = Nlen secs /\ off + 48 <= e <= off + Nlen bs.
+Proof. exact parse_index_ok. Qed.
+Print Assumptions C09_rtree_codec.
+
+(* Non-vacuity: concrete instances meet the hypotheses and the decoder really returns the values. *)
+Example C09_section_example :
+  let items := [{| v_start := 5; v_end := 9; v_bits := 1065353216 |}; {| v_start := 9; v_end := 20; v_bits := 3212836864 |}] in
+  match encode_section 3 items with
+  | Ok sd => parse_wig_section false (sd_bytes sd) = Some (3, 5, 20, map (rec_of 3) items) /\ Forall val_ok items
+  | _ => False
+  end.
+Proof. cbv zeta. vm_compute. split; [reflexivity|]. repeat constructor. Qed.
+
+Example C09_chrom_tree_example :
+  let chroms : idmap := [([99; 104; 114; 49], 0); ([99; 104; 114; 49; 48], 1)] in
+  let sizes := [([99; 104; 114; 49; 48], 700); ([99; 104; 114; 49], 1000)] in
+  match chrom_tree_bytes sizes chroms with
+  | Ok ct => parse_chrom_tree (repeatN 7 5 ++ ct ++ [1; 2]) (5 + Nlen ct + 2) false true 5
+             = Some ([{| fc_name := [99; 104; 114; 49]; fc_id := 0; fc_size := 1000 |};
+                      {| fc_name := [99; 104; 114; 49; 48]; fc_id := 1; fc_size := 700 |}], 5 + Nlen ct)
+             /\ names_increasing (map fst chroms)
+  | _ => False
+  end.
+Proof. cbv zeta. vm_compute. split; [reflexivity|]. split; [reflexivity|exact I]. Qed.
+
+Example C09_rtree_example :
+  let secs := map (fun i => {| s_chrom := N.of_nat (i / 4); s_start := N.of_nat (10 * (i mod 4)); s_end := N.of_nat (10 * (i mod 4) + 7);
+                               s_off := N.of_nat (100 + 3 * i); s_size := 3 |}) (seq 0 9) in
+  match write_index 2 5 200 secs with
+  | Ok (bs, _) => exists h e, parse_index (repeatN 0 200 ++ bs ++ [9; 9]) (200 + Nlen bs + 2) false 200 100 127
+                               = Some (h, map lf_of secs, e) /\ e = 200 + Nlen bs
+  | _ => False
+  end.
+Proof. cbv zeta. vm_compute. eexists _, _. split; reflexivity. Qed.
